@@ -62,6 +62,10 @@ pub struct DocV {
   misc: Vec<(u8, V)>,
   cycle: Option<(u8, u8)>,
   depth_bomb: Option<u8>,
+  /// which section carries the adversarial content (the others are valid or absent), so that
+  /// loading gets as far as that section: 0 rule, 1 utils, 2 constraints, 3 transform,
+  /// 4 rewriters, 5 fix, 6 top-level keys, 7.. everything at once
+  focus: u8,
 }
 
 #[derive(Clone, Debug)]
@@ -106,6 +110,11 @@ fn num(k: u8) -> Y {
   }
 }
 
+const NTHS: &[&str] = &[
+  "2n+1", "-n+3", "n", "odd", "+n", "-n", "0n+0", "99999999999n+1", "n-2147483647", "n+2147483647", "2147483647n", "-2147483647n-2147483647", "2147483648", "4294967297", "1 n + 2", "n+", "４",
+  "2n+1 of foo", "",
+];
+
 const RULE_KEYS: &[&str] = &[
   "pattern", "kind", "regex", "nthChild", "range", "inside", "has", "precedes", "follows", "all", "any", "not", "matches", "stopBy", "field", "bogusKey", "context", "selector", "strictness",
   "position", "reverse", "ofRule",
@@ -145,9 +154,10 @@ fn docv() -> impl Strategy<Value = DocV> {
       prop::collection::vec((0u8..10, v_strategy()), 0..3),
       prop::option::weighted(0.25, (0u8..10, 0u8..3)),
       prop::option::weighted(0.05, 0u8..4),
+      0u8..10,
     ),
   )
-    .prop_map(|((rule, utils, constraints, transforms, rewriters), (fix, lang, misc, cycle, depth_bomb))| DocV {
+    .prop_map(|((rule, utils, constraints, transforms, rewriters), (fix, lang, misc, cycle, depth_bomb, focus))| DocV {
       rule,
       utils,
       constraints,
@@ -158,6 +168,7 @@ fn docv() -> impl Strategy<Value = DocV> {
       misc,
       cycle,
       depth_bomb,
+      focus,
     })
 }
 
@@ -213,6 +224,7 @@ fn render_rule(r: &RuleV, depth: usize) -> Y {
         mm.insert(ys("end"), pos(k.wrapping_add(3), k.wrapping_mul(7)));
         Y::Mapping(mm)
       }
+      ("nthChild", V::Str(k)) => ys(NTHS[*k as usize % NTHS.len()]),
       ("nthChild", V::Rule(_)) => {
         let mut mm = Mapping::new();
         mm.insert(ys("position"), ys("2n+1"));
@@ -235,9 +247,10 @@ fn render_doc(d: &DocV, idx: usize) -> Y {
   // mostly a real language, so that documents reach rule construction and scanning
   let lang = if d.lang % 4 != 0 { "JavaScript" } else { LANGS11[(d.lang / 4) as usize % LANGS11.len()] };
   m.insert(ys("language"), ys(lang));
-  let mut rule = render_rule(&d.rule, 0);
+  let all = d.focus >= 7;
+  let mut rule = if all || d.focus == 0 { render_rule(&d.rule, 0) } else { Y::Mapping(Mapping::new()) };
   // valid by default: a kind-determining atom the adversarial keys are added to
-  if d.lang % 5 != 0 {
+  if d.lang % 5 != 0 || !(all || d.focus == 0) {
     if let Y::Mapping(r) = &mut rule {
       let (k, v) = [("pattern", "foo($A)"), ("pattern", "$F($$$ARGS)"), ("kind", "call_expression"), ("kind", "identifier"), ("pattern", "console.log($A)")][(d.lang / 5) as usize % 5];
       if d.lang % 3 != 0 {
@@ -261,7 +274,13 @@ fn render_doc(d: &DocV, idx: usize) -> Y {
   m.insert(ys("rule"), rule);
   let mut utils = Mapping::new();
   for (i, (_, u)) in d.utils.iter().enumerate() {
-    utils.insert(ys(&format!("u{i}")), render_rule(u, 0));
+    if all || d.focus == 1 {
+      utils.insert(ys(&format!("u{i}")), render_rule(u, 0));
+    } else {
+      let mut k = Mapping::new();
+      k.insert(ys("kind"), ys(["number", "identifier", "string"][i % 3]));
+      utils.insert(ys(&format!("u{i}")), Y::Mapping(k));
+    }
   }
   if let Some((op, len)) = d.cycle {
     // reference graphs: utilities wired into a cycle through one operator
@@ -333,14 +352,14 @@ fn render_doc(d: &DocV, idx: usize) -> Y {
     }
     return Y::Mapping(m);
   }
-  if !d.constraints.is_empty() {
+  if !d.constraints.is_empty() && (all || d.focus == 2) {
     let mut c = Mapping::new();
     for (k, r) in &d.constraints {
       c.insert(ys(["A", "B", "ARGS", "ZZ", ""][*k as usize % 5]), render_rule(r, 0));
     }
     m.insert(ys("constraints"), Y::Mapping(c));
   }
-  if !d.transforms.is_empty() {
+  if !d.transforms.is_empty() && (all || d.focus == 3 || d.focus == 4) {
     let mut t = Mapping::new();
     for (i, (kind, a, b, c, e)) in d.transforms.iter().enumerate() {
       let mut inner = Mapping::new();
@@ -384,7 +403,7 @@ fn render_doc(d: &DocV, idx: usize) -> Y {
     }
     m.insert(ys("transform"), Y::Mapping(t));
   }
-  if !d.rewriters.is_empty() {
+  if !d.rewriters.is_empty() && (all || d.focus == 4) {
     let seq = d
       .rewriters
       .iter()
@@ -398,7 +417,13 @@ fn render_doc(d: &DocV, idx: usize) -> Y {
           _ => format!("rw{i}"),
         };
         rm.insert(ys("id"), ys(&id));
-        rm.insert(ys("rule"), render_rule(r, 0));
+        if a % 2 == 0 {
+          let mut k = Mapping::new();
+          k.insert(ys("kind"), ys(["number", "identifier", "string"][i % 3]));
+          rm.insert(ys("rule"), Y::Mapping(k));
+        } else {
+          rm.insert(ys("rule"), render_rule(r, 0));
+        }
         if let Some(f) = fix {
           if f % 4 == 0 {
             let mut fm = Mapping::new();
@@ -417,7 +442,7 @@ fn render_doc(d: &DocV, idx: usize) -> Y {
       .collect();
     m.insert(ys("rewriters"), Y::Sequence(seq));
   }
-  if let Some((f, object, expand)) = &d.fix {
+  if let (Some((f, object, expand)), true) = (&d.fix, all || d.focus == 5 || d.focus == 3) {
     if *object {
       let mut fm = Mapping::new();
       fm.insert(ys("template"), ys(&s(*f)));
@@ -429,9 +454,11 @@ fn render_doc(d: &DocV, idx: usize) -> Y {
       m.insert(ys("fix"), ys(&s(*f)));
     }
   }
-  for (k, v) in &d.misc {
-    let key = ["severity", "message", "note", "files", "ignores", "url", "metadata", "bogusTopLevel", "id", "language"][*k as usize % 10];
-    m.insert(ys(key), render_v(v, 0));
+  if all || d.focus == 6 {
+    for (k, v) in &d.misc {
+      let key = ["severity", "message", "note", "files", "ignores", "url", "metadata", "bogusTopLevel", "id", "language"][*k as usize % 10];
+      m.insert(ys(key), render_v(v, 0));
+    }
   }
   Y::Mapping(m)
 }
@@ -954,6 +981,7 @@ impl<'a> Bytes<'a> {
       misc,
       cycle: None,
       depth_bomb,
+      focus: self.u8() % 10,
     }
   }
 }
